@@ -1,6 +1,7 @@
 package main
 
 import (
+	"fmt"
 	"go/token"
 	"go/types"
 	"strings"
@@ -20,6 +21,7 @@ func init() {
 			{ID: "C17.R2", Floor: 2, Run: c17r2, Text: "load guard: every write of LoadEntities is dominated by the lock test and by `len(pool) > 1 || available > 0 → panic`"},
 			{ID: "C17.R3", Floor: 4, Run: c17r3, Text: "JSON: MarshalJSON builds the array from (id, gen) in this order; UnmarshalJSON stores arr[0] into id and arr[1] into gen on every path that returns a nil error, and writes the entity in no other way"},
 			{ID: "C17.R5", Floor: 2, Run: c17r5, Text: "the dump is a copy: the slices DumpEntities puts into the EntityDump derive only from make/append-to-fresh, never from the pool's own storage"},
+			{ID: "C17.R6", Floor: 3, Run: c17r6, Text: "capacity from the same length: every make([]T, n, c) of handle/index storage with a non-constant length has c = n + e, c = n, or c = capacity(n, ·) computed from the same n (structural equality): the pool and the index are sized from the full id count, in step"},
 			{ID: "C17.R4", Floor: 2, Run: c17r4, Text: "no alias of the dump: the slices LoadEntities stores into the pool and the index derive only from make/append-to-fresh, never from a field of the parameter"},
 		},
 	})
@@ -38,6 +40,8 @@ func init() {
 			{ID: "C02.R6", Floor: 5, Run: c02r6, Text: "growth copies whole slices: no builtin copy has an argument sliced from a non-zero lower bound"},
 			{ID: "C02.R8", Floor: 6, Run: c17r1, Text: "the load path restores every run-state field of the pool (= C17.R1), so that the free list survives a load"},
 			{ID: "C02.R7", Floor: 3, Run: c05r7, Text: "handle identity (= C05.R7): handles are never compared by id alone"},
+			{ID: "C02.R9", Floor: 2, Run: c17r5, Text: "the dump is a copy (= C17.R5): a dump that shares the pool's storage is rewritten by later removals, and loading it re-issues live handles"},
+			{ID: "C02.R10", Floor: 3, Run: c17r6, Text: "index growth in step with the pool (= C17.R6): every make([]T, n, c) of handle/index storage with a non-constant length has c = n + e, c = n, or c = capacity(n, ·) computed from the same n (structural equality): the pool and the index are sized from the full id count, in step"},
 		},
 	})
 }
@@ -384,6 +388,9 @@ func freshSlice(v ssa.Value, seen map[ssa.Value]bool) (bool, string) {
 	case *ssa.Call:
 		if b, ok := x.Call.Value.(*ssa.Builtin); ok && b.Name() == "append" {
 			return freshSlice(x.Call.Args[0], seen)
+		}
+		if sc := x.Call.StaticCallee(); sc != nil && sc.Pkg != nil && sc.Pkg.Pkg.Path() == "slices" && strings.HasPrefix(sc.Name(), "Clone") {
+			return true, ""
 		}
 		return false, "result of " + calleeShort(x)
 	case *ssa.Phi:
@@ -769,4 +776,77 @@ func c17r5(p *Prog, r *Reporter) {
 			}
 		}
 	}
+}
+
+// ---------- C17.R6 / C02.R10: capacity computed from the same length ----------
+
+func c17r6(p *Prog, r *Reporter) {
+	capFns := map[string]bool{"capacity": true, "capacityU32": true, "capacityNonZero": true}
+	for _, fn := range p.Funcs {
+		if fn.Pkg == nil || fn.Pkg.Pkg.Name() != "ecs" {
+			continue
+		}
+		name := p.FuncName(fn)
+		n := 0
+		for _, b := range fn.Blocks {
+			for _, ins := range b.Instrs {
+				mk, ok := ins.(*ssa.MakeSlice)
+				if !ok {
+					continue
+				}
+				if _, isC := mk.Len.(*ssa.Const); isC {
+					continue
+				}
+				if mk.Len == mk.Cap {
+					continue // two-argument make
+				}
+				n++
+				construct := fmt.Sprintf("make with capacity #%d", n)
+				ln, cp := stripConvs(mk.Len), stripConvs(mk.Cap)
+				okc, why := false, ""
+				switch c := cp.(type) {
+				case *ssa.BinOp:
+					if c.Op == token.ADD && (structEq(stripConvs(c.X), ln, 0) || structEq(stripConvs(c.Y), ln, 0)) {
+						okc, why = true, "capacity = length + increment"
+					}
+				case *ssa.Call:
+					if sc := c.Common().StaticCallee(); sc != nil && capFns[sc.Name()] {
+						if structEq(stripConvs(c.Common().Args[0]), ln, 0) {
+							okc, why = true, "capacity = "+sc.Name()+"(length, ·), which rounds the same length up"
+						} else {
+							why = "the capacity is " + sc.Name() + "(" + exprString(c.Common().Args[0]) + ", ·) but the length is " + exprString(mk.Len) + ": the two are computed from different counts"
+						}
+					}
+				}
+				if !okc && structEq(cp, ln, 0) {
+					okc, why = true, "capacity = length"
+				}
+				if okc {
+					r.OK(name, construct, p.Pos(mk.Pos()), why)
+				} else {
+					if why == "" {
+						why = "the capacity " + exprString(mk.Cap) + " is not derived from the length " + exprString(mk.Len)
+					}
+					r.Bad(name, construct, p.Pos(mk.Pos()), why+" (capacity below length panics; storage sized from a partial count loses ids)")
+				}
+			}
+		}
+	}
+}
+
+// exprString renders a small SSA expression for messages.
+func exprString(v ssa.Value) string {
+	switch x := v.(type) {
+	case *ssa.Const:
+		return x.Value.String()
+	case *ssa.Convert:
+		return exprString(x.X)
+	case *ssa.BinOp:
+		return exprString(x.X) + " " + x.Op.String() + " " + exprString(x.Y)
+	case *ssa.Call:
+		if bi, ok := x.Call.Value.(*ssa.Builtin); ok {
+			return bi.Name() + "(" + apath(x.Call.Args[0]) + ")"
+		}
+	}
+	return apath(v)
 }
